@@ -724,6 +724,19 @@ func c13GenRevolut2(r *RNG) *c13Stmt {
 		recs = append(recs, []string{Pick(r, []string{"CARD_PAYMENT", "TOPUP", "EXCHANGE", "TRANSFER"}), "Current", ymd(days[i]-r.Intn(2)) + " 16:35:02", ymd(days[i]) + fmt.Sprintf(" %02d:27:33", r.Intn(24)),
 			c13Text(r, to, tags), c13Num(r, amt, "", tags), c13Num(r, f, "", tags), cur, "COMPLETED", c13Num(r, bal[cur], "", tags)})
 		st.Items = append(st.Items, c13Item{Kind: 'b', Day: days[i], Effs: []c13Eff{{cur, amt.Sub(f)}}})
+		if r.Chance(1, 6) {
+			// the same purchase twice on one day: two rows that agree in every field but the running balance (rows carry
+			// no identifier; seeded change C13-d de-duplicated transactions that compare equal)
+			prev := recs[len(recs)-1]
+			bal[cur] = bal[cur].Add(amt).Sub(f)
+			last[key{days[i], cur}] = bal[cur]
+			dup := append([]string{}, prev...)
+			dup[9] = c13Num(r, bal[cur], "", tags)
+			recs = append(recs, dup)
+			st.Items = append(st.Items, c13Item{Kind: 'b', Day: days[i], Effs: []c13Eff{{cur, amt.Sub(f)}}})
+			st.Rows++
+			tags["identical-rows"] = true
+		}
 	}
 	var keys []key
 	for k := range last {
